@@ -268,3 +268,61 @@ def const_dispatch(fnode, module=None, discr=None):
                 elif tg == '<return>':
                     add(k.value, '<return>', val)
     return out
+
+
+def const_value(e, module=None, cls=None, _depth=5):
+    """value of a constant expression: literals and arithmetic on them, module-level names bound to such expressions
+    (`EXT_FINAL = -1000000000`), class-level constants through self./cls./ClassName. Returns None when not constant.
+    Only literal arithmetic is folded (ast.literal_eval on the substituted expression); nothing of the analysed code runs."""
+    import copy
+
+    def subst(n, depth):
+        if depth == 0:
+            return n
+        if isinstance(n, ast.Name) and module is not None and n.id in module.globals_:
+            return subst(copy.deepcopy(module.globals_[n.id]), depth - 1)
+        if isinstance(n, ast.Attribute) and isinstance(n.value, ast.Name) and cls is not None \
+                and n.value.id in ('self', 'cls', cls.name):
+            for st in cls.node.body:
+                if isinstance(st, ast.Assign) and len(st.targets) == 1 and isinstance(st.targets[0], ast.Name) \
+                        and st.targets[0].id == n.attr:
+                    return subst(copy.deepcopy(st.value), depth - 1)
+                if isinstance(st, ast.AnnAssign) and isinstance(st.target, ast.Name) and st.target.id == n.attr \
+                        and st.value is not None:
+                    return subst(copy.deepcopy(st.value), depth - 1)
+            return n
+        for fld, val in ast.iter_fields(n):
+            if isinstance(val, ast.AST):
+                setattr(n, fld, subst(val, depth))
+            elif isinstance(val, list):
+                setattr(n, fld, [subst(v, depth) if isinstance(v, ast.AST) else v for v in val])
+        return n
+    x = subst(copy.deepcopy(e), _depth)
+
+    def fold(n):
+        if isinstance(n, ast.Constant):
+            return n.value
+        if isinstance(n, ast.UnaryOp) and isinstance(n.op, (ast.USub, ast.UAdd)):
+            v = fold(n.operand)
+            return None if not isinstance(v, (int, float)) else (-v if isinstance(n.op, ast.USub) else v)
+        if isinstance(n, ast.BinOp):
+            a, b = fold(n.left), fold(n.right)
+            if isinstance(a, (int, float)) and isinstance(b, (int, float)) and not isinstance(a, bool):
+                try:
+                    if isinstance(n.op, ast.Add):
+                        return a + b
+                    if isinstance(n.op, ast.Sub):
+                        return a - b
+                    if isinstance(n.op, ast.Mult):
+                        return a * b
+                    if isinstance(n.op, ast.Pow) and abs(b) < 64:
+                        return a ** b
+                    if isinstance(n.op, ast.FloorDiv) and b:
+                        return a // b
+                except Exception:
+                    return None
+        if isinstance(n, (ast.Tuple, ast.List)):
+            vs = [fold(x_) for x_ in n.elts]
+            return None if any(v is None for v in vs) else tuple(vs)
+        return None
+    return fold(x)
